@@ -11,6 +11,8 @@ import (
 	"fmt"
 	"sort"
 	"strings"
+	"sync"
+	"time"
 
 	"github.com/milvus-io/milvus-proto/go-api/v2/commonpb"
 	clientv3 "go.etcd.io/etcd/client/v3"
@@ -51,6 +53,7 @@ type label struct {
 	key       string
 	tok       int
 	pfx       bool
+	a, b      *label // Par: two checkpoint operations on one record, issued by two goroutines
 }
 
 func (p *pinfo) meta() *meta.PositionInfo {
@@ -128,8 +131,34 @@ func (l *label) coq() string {
 		return cq.App("LGetMsg", cq.Str(l.r), cq.Str(l.key), cq.Bool(l.pfx))
 	case "DelMsg":
 		return cq.App("LDelMsg", cq.Str(l.r), cq.Str(l.key))
+	case "Par":
+		return cq.App("LPar", "("+l.a.coq()+")", "("+l.b.coq()+")")
 	}
 	panic(l.kind)
+}
+
+// rendezvous proxy: the record read (Get) of each of the two concurrent operations returns only when the other one has
+// read too, or after a grace period (an implementation that serialises the two operations never gets both reads in)
+type rvPos struct {
+	api.MetaStore[*meta.TaskCollectionPosition]
+	mu   sync.Mutex
+	gets int
+	both chan struct{}
+}
+
+func (p *rvPos) Get(ctx context.Context, m *meta.TaskCollectionPosition, txn any) ([]*meta.TaskCollectionPosition, error) {
+	res, err := p.MetaStore.Get(ctx, m, txn)
+	p.mu.Lock()
+	p.gets++
+	if p.gets == 2 {
+		close(p.both)
+	}
+	p.mu.Unlock()
+	select {
+	case <-p.both:
+	case <-time.After(40 * time.Millisecond):
+	}
+	return res, err
 }
 
 // ---------------------------------------------------------------- failing proxy around a factory (DeleteTask)
@@ -352,6 +381,26 @@ func apply(b backend, l *label) string {
 		return "ONone"
 	case "DropState":
 		return resOf(store.UpdateDropStateTaskCollectionPosition(f.GetTaskCollectionPositionMetaStore(ctx), l.t, l.c))
+	case "Par":
+		rv := &rvPos{MetaStore: f.GetTaskCollectionPositionMetaStore(ctx), both: make(chan struct{})}
+		var wg sync.WaitGroup
+		for _, x := range []*label{l.a, l.b} {
+			wg.Add(1)
+			go func(x *label) {
+				defer wg.Done()
+				var err error
+				if x.kind == "UpdPos" {
+					err = store.UpdateTaskCollectionPosition(rv, x.t, x.c, x.cname, x.ch, x.p.meta(), x.op.meta(), x.tg.meta())
+				} else {
+					err = store.UpdateDropStateTaskCollectionPosition(rv, x.t, x.c)
+				}
+				if err != nil {
+					panic(err)
+				}
+			}(x)
+		}
+		wg.Wait()
+		return "ONone"
 	case "UpdState":
 		olds := make([]meta.TaskState, len(l.olds))
 		for i, o := range l.olds {
